@@ -61,3 +61,11 @@ impl NdjsonWriter {
 pub fn seed_from_env() -> u64 {
     std::env::var("VERIF_SEED").ok().and_then(|s| s.parse().ok()).unwrap_or(1)
 }
+
+/// Root of the repository under test (default /repo; VERIF_REPO overrides for mutation testing).
+pub fn repo_root() -> String {
+    std::env::var("VERIF_REPO").unwrap_or_else(|_| "/repo".to_string())
+}
+pub fn corelib_src() -> std::path::PathBuf {
+    std::path::PathBuf::from(repo_root()).join("corelib").join("src")
+}
